@@ -221,11 +221,19 @@ pub fn check_c11(w: &mut World) -> R<()> {
         if let Some(k) = w.prev_keys[i].iter().find(|k| !keys.contains(*k)) {
             return viol("C11", format!("item {} disappeared from replica {}", k, i));
         }
-        let cw = w.reps[i].store.with(|s| s.conflicting_writes.clone());
+        // a write that met a half-written file placed by the harness is not a write conflict of the replica
+        let torn_here: BTreeSet<String> = w.torn.iter().filter(|(x, _)| *x == i).map(|(_, k)| k.clone()).collect();
+        let cw: Vec<String> = w.reps[i].store.with(|s| {
+            s.conflicting_writes.retain(|k| !torn_here.contains(k));
+            s.conflicting_writes.clone()
+        });
         if let Some(k) = cw.first() {
             return viol("C11", format!("replica {} attempted to write different bytes to existing item {}", i, k));
         }
         for (k, v) in &snap {
+            if w.torn.contains(&(i, k.clone())) {
+                continue; // placed half-written by the harness on this replica
+            }
             if let Some(old) = w.universe.get(k) {
                 if old != v {
                     let show = |b: &Vec<u8>| format!("{} bytes {:?}", b.len(), String::from_utf8_lossy(&b[..b.len().min(300)]));
